@@ -115,6 +115,15 @@ Theorem C14_source_cnm_step : forall test req rem pcm p s,
   g_cnm_step test req rem pcm p s = cnm_step test rem pcm p s.
 Proof. exact gen_cnm_step. Qed.
 Print Assumptions C14_source_cnm_step.
+Theorem C14_source_dsn_cond : forall b c i req, g_dsn_cond b c i req = dsn_cond b c i req.
+Proof. exact gen_dsn_cond. Qed.
+Print Assumptions C14_source_dsn_cond.
+Theorem C14_source_cand_ok : forall b m i, g_cand_ok b m i = cand_ok b m i.
+Proof. exact gen_cand_ok. Qed.
+Print Assumptions C14_source_cand_ok.
+Theorem C14_source_cand_centre : forall b m i, g_cand_centre b m i = (let* v := idx_at b i in Ok (v + m)).
+Proof. exact gen_cand_centre. Qed.
+Print Assumptions C14_source_cand_centre.
 Theorem C14_source_pth_assign_one : forall p st rq, g_pth_assign_one p st rq = pth_assign_one p st rq.
 Proof. exact gen_pth_assign_one. Qed.
 Print Assumptions C14_source_pth_assign_one.
